@@ -201,6 +201,19 @@ def _setup(case, ctx, mode=None):
         if not valid or not sps.accepted_unchanged(sp, T_bot, T_top):
             ctx.skip("library did not accept a pose the oracle places inside the workspace (valid=%s)" % bool(valid))
         pargs = ()
+        if case.get("pre_query") is not None:
+            # history: a Jacobian query at ANOTHER, explicitly given pose comes first; it is a pure query, so the
+            # platform must still stand at (T_bot, T_top) afterwards and every later no-argument call refers to it
+            u2 = np.asarray(case["pre_query"], dtype=float) * 0.5
+            other_top = sps.make_tm(T_bot @ sps.rel_T(model, u2), "mat")
+            kw2 = {"top_plate_pos": other_top}
+            if case.get("pre_query_bottom"):
+                kw2["bottom_plate_pos"] = sps.make_tm(T_bot, "mat")
+            with time_guard(GUARD_S):
+                sut(sp.inverseJacobian, **kw2)
+            ctx.label("explicit-pose query first")
+            if not sps.accepted_unchanged(sp, T_bot, T_top):
+                raise Violation("inverseJacobian at an explicitly given pose moved the plates of the platform")
     else:
         pargs = (top_tm, bot_tm)
 
@@ -435,6 +448,11 @@ def _masses(case, e, ctx):
         sut(sp.setCOG, float(r["cog"][0]), float(r["cog"][1]))
         dcog = float(r["cog"][1])
         ctx.label("setCOG called")
+    if r.get("grav_later") is not None:
+        # gravity changed through the public setter AFTER the masses were assigned: the weights follow it
+        g = np.asarray(r["grav_later"], dtype=float)
+        sut(sp.setGrav, g.copy())
+        ctx.label("setGrav after the masses")
     return top, shaft, dcog, g
 
 
@@ -554,7 +572,7 @@ def _remass():
     return st.one_of(st.none(), st.fixed_dictionaries({
         "general": G.floats(0.5, 50.0), "shaft": G.floats(0.05, 5.0), "motor": G.floats(0.05, 5.0),
         "top": st.one_of(st.none(), st.just(0.0), G.floats(0.5, 50.0)),
-        "grav": _gravities(),
+        "grav": _gravities(), "grav_later": _gravities(),
         "cog": st.one_of(st.none(), st.tuples(G.floats(0.02, 0.4), G.floats(0.02, 0.4))),
     }))
 
@@ -565,6 +583,7 @@ def _pose_part():
         "mode": st.sampled_from(["state", "state", "args"]),
         "bot": st.one_of(st.none(), sps.base_poses(), _S_FAR), "bot_form": _FORMS, "top_form": _FORMS,
         "bot_implicit": st.booleans(),
+        "pre_query": st.one_of(st.none(), st.none(), sps.rel_poses()), "pre_query_bottom": st.booleans(),
     }
 
 
